@@ -158,7 +158,25 @@ class ZoneAnalysis:
         self.pre = precondition
         self.int_locals = [l for l in range(len(body.locals))
                            if any(f.startswith("uint:") for f in body.local_flags(l)) and "ref" not in body.local_flags(l)]
-        self.vars = ["Z", "N"] + ["_%d" % l for l in self.int_locals]
+        # tuples of integers (cursor pairs returned by a helper, …): one pseudo-variable per integer component
+        self.tuple_fields = {}
+        for l in range(len(body.locals)):
+            ty = body.local_ty(l)
+            if ty.startswith("(") and ty.endswith(")") and "<" not in ty and "(" not in ty[1:]:
+                comps = [c_.strip() for c_ in ty[1:-1].split(",") if c_.strip()]
+                idx = [i for i, c_ in enumerate(comps) if c_ in ("usize",)]
+                if idx and len(comps) >= 2 and "bool" not in comps:      # (usize, bool) are checked-arithmetic results
+                    self.tuple_fields[l] = idx
+            else:
+                # a crate-local struct of plain integers (e.g. a pair of cursors)
+                adt = getattr(body.prog, "adts", {}).get(ty)
+                if adt and adt.get("kind") == "Struct" and len(adt.get("variants", [])) == 1:
+                    ftys = [f.get("ty") for f in adt["variants"][0]["fields"]]
+                    if ftys and all(t_ == "usize" for t_ in ftys):
+                        self.tuple_fields[l] = list(range(len(ftys)))
+                        self.struct_locals = getattr(self, "struct_locals", {})
+                        self.struct_locals[l] = ty
+        self.vars = ["Z", "N"] + ["_%d" % l for l in self.int_locals] + ["_%d.%d" % (l, i) for l, fs in self.tuple_fields.items() for i in fs]
         self.pending = {}     # tuple local -> (op, var-or-const operands)
         self.bools = {}       # bool local -> (op, a, b) comparison (per definition site, single-assignment temps)
         self.obligations = [] # (key, bb, ok, detail)
@@ -189,6 +207,30 @@ class ZoneAnalysis:
             return ("var", self.name(pl["l"]))
         return None
 
+    def assign_tuple(self, st, l, rv):
+        fs = self.tuple_fields[l]
+        if rv["k"] == "agg" and (not rv.get("adt") or rv.get("adt") == getattr(self, "struct_locals", {}).get(l)):
+            for i in fs:
+                x = "_%d.%d" % (l, i)
+                o = self.opnd(rv["fields"][i]) if i < len(rv["fields"]) else None
+                if o and o[0] == "var":
+                    st.assign_var_plus(x, o[1], 0)
+                elif o and o[0] == "const":
+                    st.assign_const(x, o[1])
+                else:
+                    st.havoc_unsigned(x)
+            return
+        if rv["k"] == "use" and rv["a"]["k"] in ("move", "copy") and not rv["a"]["pl"]["p"] and rv["a"]["pl"]["l"] in self.tuple_fields:
+            src = rv["a"]["pl"]["l"]
+            for i in fs:
+                if i in self.tuple_fields[src]:
+                    st.assign_var_plus("_%d.%d" % (l, i), "_%d.%d" % (src, i), 0)
+                else:
+                    st.havoc_unsigned("_%d.%d" % (l, i))
+            return
+        for i in fs:
+            st.havoc_unsigned("_%d.%d" % (l, i))
+
     def is_self_recv(self, e):
         e = ds(e)
         return isinstance(e, tuple) and e[:2] == ("param", 1)
@@ -215,6 +257,10 @@ class ZoneAnalysis:
                         if not pl["p"] and pl["l"] in self.int_locals:
                             st.assign_var_plus(x, self.name(pl["l"]), 0)
                             done = True
+                        elif len(pl["p"]) == 1 and isinstance(pl["p"][0], dict) and pl["l"] in self.tuple_fields and \
+                                pl["p"][0].get("field") in self.tuple_fields[pl["l"]]:
+                            st.assign_var_plus(x, "_%d.%d" % (pl["l"], pl["p"][0]["field"]), 0)
+                            done = True
                         elif len(pl["p"]) == 1 and isinstance(pl["p"][0], dict) and pl["p"][0].get("field") == 0 and pl["l"] in self.pending:
                             op, aa, bbv = self.pending[pl["l"]]
                             if aa and bbv and aa[0] == "var" and bbv[0] == "const":
@@ -233,6 +279,8 @@ class ZoneAnalysis:
                 self.pending[l] = (rv["op"][:-len("WithOverflow")], self.opnd(rv["a"]), self.opnd(rv["b"]))
             elif rv["k"] == "binop" and rv["op"] in ("Lt", "Le", "Gt", "Ge", "Eq", "Ne"):
                 self.bools[l] = (rv["op"], self.opnd(rv["a"]), self.opnd(rv["b"]))
+            elif l in self.tuple_fields:
+                self.assign_tuple(st, l, rv)
         t = blk["term"]
         k = t["k"]
         outs = {}
@@ -307,6 +355,9 @@ class ZoneAnalysis:
                         self.obligations.append(("swap-arg%d" % ai, bb, False, "swap index not modelled", ""))
             # results
             d = t["dst"]
+            if not d["p"] and d["l"] in self.tuple_fields:
+                for i in self.tuple_fields[d["l"]]:
+                    st.havoc_unsigned("_%d.%d" % (d["l"], i))
             if not d["p"] and d["l"] in self.int_locals:
                 x = self.name(d["l"])
                 if nm in ("len", "len_of") and args and self.is_self_recv(args[0]):
